@@ -837,6 +837,27 @@ def h_into(I, st, callee, target, args, ctx):
             return I.call_local(st, I.f.bodies[via["def"]], [v], ctx)
     dest = ctx["term"]["dest"]
     ty = ctx["body"]["locals"][dest["l"]] if not dest["p"] else None
+    # the conversion's own target type, from its generic arguments: <Src as Into<T>>::into / <T as From<Src>>::from
+    ga = callee.get("args") or []
+    tgt = None
+    if callee["def"].endswith("Into::into") and len(ga) >= 2 and "ty" in ga[1]:
+        tgt = ga[1]["ty"]
+    elif callee["def"].endswith("From::from") and len(ga) >= 1 and "ty" in ga[0]:
+        tgt = ga[0]["ty"]
+    if tgt is not None and I.f.types[tgt]["k"] == "param":
+        ty = tgt
+    if ty is not None and I.f.types[ty]["k"] == "param":
+        # `T::from(x)` / `x.into()` inside a generic helper: T is known from the call's generic arguments
+        ge = I.genv_stack[-1] or {}
+        gv = ge.get(I.f.types[ty]["name"])
+        if gv is not None and "ty" in gv:
+            ty = gv["ty"]
+            conc = I.f.types[ty]
+            wants = set(x.split("<")[0] for x in (conc.get("def"), conc.get("text"), conc.get("name")) if x)
+            cands = [b for b in I.f.bodies.values() if b["def"].endswith("::from") and (b.get("impl_trait") or "").split("<")[0].endswith("convert::From")
+                     and (b.get("impl_self") or "").split("<")[0] in wants]
+            if len(cands) == 1:
+                return I.call_local(st, cands[0], [v], ctx)
     return convert_to(I, st, v, ty, ctx)
 
 
@@ -951,6 +972,21 @@ def h_is_some(I, st, callee, target, args, ctx):
         c = ("in", v.disc, IntSet.of(1))
         return [(st, VBool(negate(c) if neg else c))]
     raise Unanalysable("is_some on %r" % (v,))
+
+
+def opaque_result_cases(I, st, v):
+    """an opaque Result (the value of a stubbed root): [(st, Ok(payload) | Err(payload))], decided by
+    the same opaque fact `?` uses"""
+    from .interp import VApp as _VApp
+    tag = v.tag if isinstance(v, VOpaque) else repr(v)
+    key = ("res", valkey(v))
+    cur = st.pc.opq.get(key)
+    outs = []
+    for okk in ((True, False) if cur is None else (cur,)):
+        s2 = st.copy()
+        s2.pc.opq[key] = okk
+        outs.append((s2, mk_ok(VOpaque(tag + ".ok")) if okk else mk_err(VOpaque(tag + ".err"))))
+    return outs
 
 
 def force_app(I, st, v):
@@ -1487,6 +1523,18 @@ def h_try_into(I, st, callee, target, args, ctx):
     # Result<heapless::Vec<u8,N>, ()>
     if t["k"] == "adt" and t["def"] == RESULT:
         okt = I.rty(t["args"][0]["ty"])
+        if okt["k"] == "array" and isinstance(v, VSlice) and isinstance(okt.get("len"), int):
+            # <[u8; N]>::try_from(slice): Ok(copy) exactly when the length is N
+            n = okt["len"]
+            if v.len.is_const():
+                fits = v.len.c == n
+            else:
+                ge = decide_le0(st, -v.len + n, "array try_from")        # len >= n
+                fits = ge and decide_le0(st, v.len - n, "array try_from")   # len <= n
+            if not fits:
+                return [(st, mk_err(VOpaque("TryFromSliceError")))]
+            items = [VInt(8, False, lin=Lin.atom(("byte", v.buf, (v.start + i).key()))) for i in range(n)]
+            return [(st, mk_ok(VList(items)))]
         cap = vec_cap(I, okt)
         if isinstance(v, VSlice) and okt["k"] == "adt" and okt["def"] == "alloc::vec::Vec":
             # TryFrom via the blanket impl over From: Vec::from(slice), infallible
@@ -2277,6 +2325,11 @@ def h_res_is_ok(I, st, callee, target, args, ctx):
 @ext("core:Result<T, E>::and_then")
 def h_res_and_then(I, st, callee, target, args, ctx):
     v, f = args
+    if isinstance(v, VOpaque):
+        out = []
+        for s2, r in opaque_result_cases(I, st, v):
+            out += h_res_and_then(I, s2, callee, target, [r, f], ctx)
+        return out
     if isinstance(v, VAdt) and v.adt == RESULT:
         if v.variant == 1:
             return [(st, v)]
@@ -2692,3 +2745,22 @@ def h_res_or_else(I, st, callee, target, args, ctx):
             return [(st, v)]
         return I.apply_callable(st, f, [v.fields[0]], ctx)
     raise Unanalysable("Result::or_else on %r" % (v,))
+
+
+@ext("core:Option<Result<T, E>>::transpose", "core:Option<std::result::Result<T, E>>::transpose", "core:Option<core::result::Result<T, E>>::transpose")
+def h_opt_transpose(I, st, callee, target, args, ctx):
+    v = args[0]
+    if isinstance(v, VAdt) and v.adt == OPTION:
+        if v.variant == 0:
+            return [(st, mk_ok(NONE))]
+        inner = v.fields[0]
+        if isinstance(inner, VOpaque):
+            out = []
+            for s2, r in opaque_result_cases(I, st, inner):
+                out += h_opt_transpose(I, s2, callee, target, [mk_some(r)], ctx)
+            return out
+        if isinstance(inner, VAdt) and inner.adt == RESULT:
+            if inner.variant == 0:
+                return [(st, mk_ok(mk_some(inner.fields[0])))]
+            return [(st, mk_err(inner.fields[0]))]
+    raise Unanalysable("Option::transpose on %r" % (v,))
